@@ -26,7 +26,6 @@ import (
 	"net"
 	"os"
 	"path/filepath"
-	"sort"
 	"strings"
 	"sync"
 	"testing"
@@ -62,11 +61,23 @@ type vsrvIn struct {
 	Command string  `json:"command"`
 	Char    string  `json:"char"` // location based fixes: the diagnostic points at the Nth occurrence of this byte
 	Nth     int     `json:"nth"`
+	// further requests on the same document of the same server, each sent after the editor applied the
+	// edits of the one before it (and told the server with didChange): op format | cmd
+	Then []vsrvStep `json:"then"`
+}
+
+type vsrvStep struct {
+	Op      string `json:"op"`
+	Command string `json:"command"`
+	Char    string `json:"char"`
+	Nth     int    `json:"nth"`
 }
 
 type vsrvOut struct {
 	ID     int    `json:"id"`
 	Fatal  string `json:"fatal,omitempty"` // harness problem (timeout, transport): the check stops
+	Panic  string `json:"panic,omitempty"` // the server panicked while handling this request (recovered by the harness)
+	Then   []vsrvOut `json:"then,omitempty"` // the following requests on the same document
 	URI    string `json:"uri"`
 	Client string `json:"client"`     // hex: the text the client holds
 	HasDoc bool   `json:"has_client"` // the client sent the document (didOpen / file created)
@@ -118,6 +129,41 @@ type vsrv struct {
 
 	cfgLoaded chan struct{}
 	sentinels int
+
+	pmu    sync.Mutex
+	panics []string // panics of the server (handler, command worker, template worker), recovered here
+}
+
+func (s *vsrv) notePanic(where string, r any) {
+	s.pmu.Lock()
+	s.panics = append(s.panics, fmt.Sprintf("%s: %v", where, r))
+	s.pmu.Unlock()
+}
+
+func (s *vsrv) takePanics() string {
+	s.pmu.Lock()
+	defer s.pmu.Unlock()
+
+	out := strings.Join(s.panics, "; ")
+	s.panics = nil
+
+	return out
+}
+
+// keepAlive runs a worker loop of the server; a panic inside it (which would end the real server) is
+// recorded and the loop is started again, so that one request's crash does not hide the other cases.
+func (s *vsrv) keepAlive(ctx context.Context, name string, loop func(context.Context)) {
+	for ctx.Err() == nil {
+		func() {
+			defer func() {
+				if r := recover(); r != nil {
+					s.notePanic(name, r)
+				}
+			}()
+
+			loop(ctx)
+		}()
+	}
 }
 
 const vsrvTimeout = 180 * time.Second
@@ -162,6 +208,7 @@ func (s *vsrv) mark() int {
 // returns the events recorded between from and that message.
 func (s *vsrv) waitApplyEditFor(from int, target string) ([]vsrvEvent, error) {
 	deadline := time.After(vsrvTimeout)
+	sincePanic := 0
 
 	for {
 		s.mu.Lock()
@@ -174,6 +221,22 @@ func (s *vsrv) waitApplyEditFor(from int, target string) ([]vsrvEvent, error) {
 			}
 		}
 		s.mu.Unlock()
+
+		// a worker that panicked (recovered by keepAlive) sends nothing any more for the job it was on -- possibly the
+		// sentinel itself: give the messages already on their way a moment, then go on with what arrived
+		s.pmu.Lock()
+		panicked := len(s.panics) > 0
+		s.pmu.Unlock()
+
+		if panicked {
+			if sincePanic++; sincePanic > 5 {
+				s.mu.Lock()
+				evs := append([]vsrvEvent(nil), s.events[from:]...)
+				s.mu.Unlock()
+
+				return evs, nil
+			}
+		}
 
 		select {
 		case <-s.wake:
@@ -304,8 +367,8 @@ func vsrvStart(ctx context.Context, wsRoot, profile string) (*vsrv, error) {
 		}
 	}()
 
-	go ls.StartCommandWorker(ctx)
-	go ls.StartTemplateWorker(ctx)
+	go s.keepAlive(ctx, "command worker", ls.StartCommandWorker)
+	go s.keepAlive(ctx, "template worker", ls.StartTemplateWorker)
 
 	if profile == "config" {
 		go ls.StartConfigWorker(ctx)
@@ -319,7 +382,20 @@ func vsrvStart(ctx context.Context, wsRoot, profile string) (*vsrv, error) {
 		_ = cc.Close()
 	}()
 
-	connServer := jsonrpc2.NewConn(ctx, jsonrpc2.NewBufferedStream(cs, jsonrpc2.VSCodeObjectCodec{}), jsonrpc2.HandlerWithError(ls.Handle))
+	// the request handler runs on the connection's read loop: a panic in it is recovered here (recorded, and
+	// answered with an error) instead of ending the test process
+	guarded := func(ctx context.Context, conn *jsonrpc2.Conn, req *jsonrpc2.Request) (result any, err error) {
+		defer func() {
+			if r := recover(); r != nil {
+				s.notePanic("handler "+req.Method, r)
+				result, err = nil, fmt.Errorf("panic: %v", r)
+			}
+		}()
+
+		return ls.Handle(ctx, conn, req)
+	}
+
+	connServer := jsonrpc2.NewConn(ctx, jsonrpc2.NewBufferedStream(cs, jsonrpc2.VSCodeObjectCodec{}), jsonrpc2.HandlerWithError(guarded))
 	s.conn = jsonrpc2.NewConn(ctx, jsonrpc2.NewBufferedStream(cc, jsonrpc2.VSCodeObjectCodec{}), s)
 
 	ls.SetConn(connServer)
@@ -607,6 +683,49 @@ func (s *vsrv) runOne(ctx context.Context, c vsrvIn) (o vsrvOut) {
 		}
 	}
 
+	o = s.runOp(ctx, c, dir, u, client, o)
+	if o.Fatal != "" {
+		return o
+	}
+
+	// the following requests: the editor applies what it got, tells the server, and asks again
+	cur := o
+	for _, st := range c.Then {
+		if cur.Class == "edits" && cur.ApplOK {
+			b, _ := hex.DecodeString(cur.Applied)
+			if string(b) != client {
+				client = string(b)
+
+				if err := s.didChange(ctx, u, client); err != nil {
+					o.Fatal = "didChange (after applying): " + err.Error()
+
+					return o
+				}
+			}
+		}
+
+		c2 := c
+		c2.Op, c2.Command, c2.Char, c2.Nth, c2.Then = st.Op, st.Command, st.Char, st.Nth, nil
+		o2 := vsrvOut{ID: c.ID, Edits: [][5]any{}, Kind: o.Kind, URI: u, InRoot: o.InRoot, HasDoc: o.HasDoc}
+		o2 = s.runOp(ctx, c2, dir, u, client, o2)
+		o.Then = append(o.Then, o2)
+
+		if o2.Fatal != "" {
+			o.Fatal = o2.Fatal
+
+			return o
+		}
+
+		cur = o2
+	}
+
+	return o
+}
+
+// runOp performs one request on the document u, of which the client holds the text client
+func (s *vsrv) runOp(ctx context.Context, c vsrvIn, dir, u, client string, o vsrvOut) vsrvOut {
+	_ = s.takePanics()
+
 	o.Client = hex.EncodeToString([]byte(client))
 	o.Ignored = s.ls.ignoreURI(u)
 
@@ -843,6 +962,7 @@ func (s *vsrv) runOne(ctx context.Context, c vsrvIn) (o vsrvOut) {
 
 	after, has := s.serverCopy(u)
 	o.AfterHas, o.After = has, hex.EncodeToString([]byte(after))
+	o.Panic = s.takePanics()
 
 	if o.Class == "edits" {
 		s.fillEdits(&o, client, edits)
@@ -884,11 +1004,37 @@ func TestVerifC16Server(t *testing.T) {
 	ctx, cancel := context.WithCancel(context.Background())
 	defer cancel()
 
+	// results are written as they come and the case in flight is named in a journal, so that whatever
+	// ends this process (a fatal error no recover can stop, a time-out) leaves the finished cases behind
+	w, err := os.Create(out)
+	if err != nil {
+		t.Fatal(err)
+	}
+	defer w.Close()
+
+	var journal *os.File
+	if jp := os.Getenv("VERIF_C16_SRV_JOURNAL"); jp != "" {
+		if journal, err = os.Create(jp); err != nil {
+			t.Fatal(err)
+		}
+		defer journal.Close()
+	}
+
 	var (
-		wg   sync.WaitGroup
-		mu   sync.Mutex
-		outs []vsrvOut
+		wg sync.WaitGroup
+		mu sync.Mutex
 	)
+
+	emit := func(o vsrvOut) {
+		b, err := json.Marshal(o)
+		if err != nil {
+			b, _ = json.Marshal(vsrvOut{ID: o.ID, Fatal: "cannot encode the result: " + err.Error(), Edits: [][5]any{}})
+		}
+
+		mu.Lock()
+		_, _ = w.Write(append(b, '\n'))
+		mu.Unlock()
+	}
 
 	for profile, cases := range byProfile {
 		wg.Add(1)
@@ -896,59 +1042,40 @@ func TestVerifC16Server(t *testing.T) {
 		go func(profile string, cases []vsrvIn) {
 			defer wg.Done()
 
-			local := make([]vsrvOut, 0, len(cases))
-
 			s, err := vsrvStart(ctx, wsRoot, profile)
 			if err != nil {
 				for _, c := range cases {
-					local = append(local, vsrvOut{ID: c.ID, Fatal: "server start: " + err.Error(), Edits: [][5]any{}})
+					emit(vsrvOut{ID: c.ID, Fatal: "server start: " + err.Error(), Edits: [][5]any{}})
 				}
-			} else {
-				dead := ""
 
-				for _, c := range cases {
-					if dead != "" {
-						local = append(local, vsrvOut{ID: c.ID, Fatal: dead, Edits: [][5]any{}})
-
-						continue
-					}
-
-					o := s.runOne(ctx, c)
-					if o.Fatal != "" {
-						// after a transport problem / timeout the server's state is unknown
-						dead = "after: " + o.Fatal
-					}
-
-					local = append(local, o)
-				}
+				return
 			}
 
-			mu.Lock()
-			outs = append(outs, local...)
-			mu.Unlock()
+			dead := ""
+
+			for _, c := range cases {
+				if dead != "" {
+					emit(vsrvOut{ID: c.ID, Fatal: dead, Edits: [][5]any{}})
+
+					continue
+				}
+
+				if journal != nil {
+					mu.Lock()
+					_, _ = journal.WriteString(fmt.Sprintf("%d\n", c.ID))
+					mu.Unlock()
+				}
+
+				o := s.runOne(ctx, c)
+				if o.Fatal != "" {
+					// after a transport problem / timeout the server's state is unknown
+					dead = "after: " + o.Fatal
+				}
+
+				emit(o)
+			}
 		}(profile, cases)
 	}
 
 	wg.Wait()
-
-	sort.Slice(outs, func(i, j int) bool { return outs[i].ID < outs[j].ID })
-
-	w, err := os.Create(out)
-	if err != nil {
-		t.Fatal(err)
-	}
-	defer w.Close()
-
-	bw := bufio.NewWriterSize(w, 1<<20)
-	defer bw.Flush()
-
-	for _, o := range outs {
-		b, err := json.Marshal(o)
-		if err != nil {
-			t.Fatal(err)
-		}
-
-		bw.Write(b)
-		bw.WriteByte('\n')
-	}
 }
